@@ -2,11 +2,13 @@
   Registry of oracle op handlers: (op prefix, handler). One line per domain.
 -/
 import Oracle.Avc
+import Oracle.Ws
 
 namespace Oracle
 
 def handlers : List (String × (String → List String → Option String)) := [
-  ("avc.", Oracle.Avc.handle)
+  ("avc.", Oracle.Avc.handle),
+  ("ws", Oracle.Ws.handle)
 ]
 
 def dispatch (op : String) (args : List String) : Option String :=
